@@ -452,6 +452,20 @@ func runC14(ctx *Ctx) error {
 		}
 		ctx.Mark(sc.describe())
 		fails, extra := sc.run(r)
+		if len(fails) > 0 && c14Timing(fails) {
+			// scheduler-dependent failures (time-outs) are confirmed by running the scenario again
+			again := 0
+			for k := 0; k < 2; k++ {
+				if f2, _ := sc.run(NewRng(ctx.Seed + int64(i)*131 + int64(k))); len(f2) > 0 {
+					again++
+					fails = f2
+				}
+			}
+			if again == 0 {
+				res.Count("scheduler-dependent-failure-not-reproduced")
+				fails, extra = nil, nil
+			}
+		}
 		for _, f := range fails {
 			f.Case = sc.describe()
 			res.Fail(f)
@@ -1021,4 +1035,15 @@ func (sc c14Scenario) run(r Rng) (fails []Failure, extra [][3]string) {
 		fail("scenario-timeout", "scenario did not finish within 15 s")
 	}
 	return fails, extra
+}
+
+// c14Timing: failures that may be due to the schedule on a loaded machine (time-outs), as opposed
+// to wrong bytes, wrong frames, wrong counts, panics
+func c14Timing(fails []Failure) bool {
+	for _, f := range fails {
+		if !(f.Site == "accept" || f.Site == "scenario-timeout" || f.Site == "close" || f.Site == "flush" || (f.Site == "read-stream" && strings.Contains(f.Impl, "never reached"))) {
+			return false
+		}
+	}
+	return true
 }
